@@ -6,9 +6,32 @@
  */
 #include "rdsquashfs.h"
 
-static int print_name(const sqfs_tree_node_t *n, bool dont_escape)
+/*
+  Print a string so that the pack file parser of gensquashfs reads back
+  exactly the same bytes: wrap it in quotes if it contains a separator, a
+  quote or a backslash, and escape the latter two.
+ */
+static void print_quoted(const char *str)
 {
-	char *start, *ptr, *name;
+	if (str[0] != '\0' && strpbrk(str, " \t\r\"\\") == NULL) {
+		fputs(str, stdout);
+		return;
+	}
+
+	fputc('"', stdout);
+
+	for (; *str != '\0'; ++str) {
+		if (*str == '"' || *str == '\\')
+			fputc('\\', stdout);
+		fputc(*str, stdout);
+	}
+
+	fputc('"', stdout);
+}
+
+static int print_name(const sqfs_tree_node_t *n, const char *prefix)
+{
+	char *name, *full;
 	int ret;
 
 	ret = sqfs_tree_node_get_path(n, &name);
@@ -23,30 +46,19 @@ static int print_name(const sqfs_tree_node_t *n, bool dont_escape)
 		return -1;
 	}
 
-	if (dont_escape || (strchr(name, ' ') == NULL &&
-			    strchr(name, '"') == NULL)) {
-		fputs(name, stdout);
-	} else {
-		fputc('"', stdout);
-
-		ptr = strchr(name, '"');
-
-		if (ptr != NULL) {
-			start = name;
-
-			do {
-				fwrite(start, 1, ptr - start, stdout);
-				fputs("\\\"", stdout);
-				start = ptr + 1;
-				ptr = strchr(start, '"');
-			} while (ptr != NULL);
-
-			fputs(start, stdout);
-		} else {
-			fputs(name, stdout);
+	if (prefix != NULL) {
+		full = calloc(1, strlen(prefix) + 1 + strlen(name) + 1);
+		if (full == NULL) {
+			perror("printing file location");
+			sqfs_free(name);
+			return -1;
 		}
 
-		fputc('"', stdout);
+		sprintf(full, "%s/%s", prefix, name);
+		print_quoted(full);
+		free(full);
+	} else {
+		print_quoted(name);
 	}
 
 	sqfs_free(name);
@@ -60,14 +72,20 @@ static void print_perm(const sqfs_tree_node_t *n)
 }
 
 static int print_simple(const char *type, const sqfs_tree_node_t *n,
-			const char *extra)
+			const char *extra, bool quote_extra)
 {
 	printf("%s ", type);
-	if (print_name(n, false))
+	if (print_name(n, NULL))
 		return -1;
 	print_perm(n);
-	if (extra != NULL)
-		printf(" %s", extra);
+	if (extra != NULL) {
+		fputc(' ', stdout);
+		if (quote_extra) {
+			print_quoted(extra);
+		} else {
+			fputs(extra, stdout);
+		}
+	}
 	fputc('\n', stdout);
 	return 0;
 }
@@ -84,22 +102,22 @@ int describe_tree(const sqfs_tree_node_t *root, const char *unpack_root)
 
 	switch (root->inode->base.mode & S_IFMT) {
 	case S_IFSOCK:
-		return print_simple("sock", root, NULL);
+		return print_simple("sock", root, NULL, false);
 	case S_IFLNK:
 		return print_simple("slink", root,
-				    (const char *)root->inode->extra);
+				    (const char *)root->inode->extra, true);
 	case S_IFIFO:
-		return print_simple("pipe", root, NULL);
+		return print_simple("pipe", root, NULL, false);
 	case S_IFREG:
 		if (unpack_root == NULL)
-			return print_simple("file", root, NULL);
+			return print_simple("file", root, NULL, false);
 
 		fputs("file ", stdout);
-		if (print_name(root, false))
+		if (print_name(root, NULL))
 			return -1;
 		print_perm(root);
-		printf(" %s/", unpack_root);
-		if (print_name(root, true))
+		fputc(' ', stdout);
+		if (print_name(root, unpack_root))
 			return -1;
 		fputc('\n', stdout);
 		break;
@@ -118,12 +136,16 @@ int describe_tree(const sqfs_tree_node_t *root, const char *unpack_root)
 		sprintf(buffer, "%c %u %u",
 			S_ISCHR(root->inode->base.mode) ? 'c' : 'b',
 			major(devno), minor(devno));
-		return print_simple("nod", root, buffer);
+		return print_simple("nod", root, buffer, false);
 	}
 	case S_IFDIR:
 		if (root->name[0] != '\0') {
-			if (print_simple("dir", root, NULL))
+			if (print_simple("dir", root, NULL, false))
 				return -1;
+		} else {
+			fputs("dir /", stdout);
+			print_perm(root);
+			fputc('\n', stdout);
 		}
 
 		for (n = root->children; n != NULL; n = n->next) {
